@@ -51,6 +51,9 @@ CHECKS = {
  "C04": dict(design="§4 C04", engine="XH",
              technique="skeleton + holes on the query grammar: real lexer/parser concretely, real ParseTreeWalker + ZorgQueryCompiler under CrossHair (z3) with symbolic / solver-chosen token texts, compared with the abstract query; symbolic-string kernels for value typing, operator splitting, relative dates",
              note="stub: clock; menus for identifiers/values (hashed into sets); queries the shipped parser rejects are outside; dateutil trusted"),
+ "C15": dict(design="§4 C15", engine="z3+XH",
+             technique="z3 propositional equivalence between the compiled expansion (real expand_saved_queries + real query compiler) and the intended meaning over all tag assignments; CrossHair (z3) on the first-line word scan and the missing-reference path",
+             note="atoms restricted to distinct tags (their truth assignments stand for all indexes); clause/reference shapes enumerated; cyclic sets excluded"),
 }
 NA = {
  "C13": "crash points between external effects (SQLite transactions, OS file writes) cannot be made symbolic: the effects are C-level/ORM internals; with them concrete a symbolic crash index is realised at the first effect, which is enumeration of faulted runs, a different technique (DESIGN.md §8)",
